@@ -62,8 +62,12 @@ macro_rules! convert_float {
 
         // combine regime, exponent, mantissa and arithmetic bitshift for 11..110em or 00..001em
         let mut regime_exponent_mantissa = regime_bits | exponent_bits | mantissa;
-        regime_exponent_mantissa >>= ((k + 1).abs() as u32) + signbit_e; // arithmetic bitshift
+        let regime_shift = ((k + 1).abs() as u32) + signbit_e;
+        // mantissa bits pushed out by the regime must still break a rounding tie
+        let sticky = (regime_exponent_mantissa & !(BInt::MAX << regime_shift)) != 0;
+        regime_exponent_mantissa >>= regime_shift; // arithmetic bitshift
         regime_exponent_mantissa &= (BUInt::MAX >> 1) as BInt; // remove possible sign bit from arith shift
+        regime_exponent_mantissa |= sticky as BInt;
 
         // round to nearest of the result
         let mut p_rounded = <$buint as $crate::convert::BitRound>::Ux::bitround::<{ <$posit>::BITS }>(regime_exponent_mantissa as BUInt) as <$posit as RawPosit>::UInt;
